@@ -28,10 +28,14 @@ int main(int argc, char** argv) {
         if (!ctx.want(c.id)) return;
         ctx.begin_case(c.id);
         uint64_t h0 = module_hash(mod);
-        ExecOpts eo; eo.prefill = 1;
-        execute(c, eo, r);
-        std::string err = judge_model(c, r, false, true);
-        if (err.empty() && module_hash(mod) != h0) err = "the MODULE or one of its precomputed tables was modified by the call";
+        std::string err;
+        for (int al = 0; al < 2 && err.empty(); ++al) {  // 64-byte aligned buffers, then every buffer at a different odd multiple of 8
+          ExecOpts eo; eo.prefill = 1;
+          if (al) for (int i = 0; i < 12; ++i) eo.off[i] = 8 * (2 * (i % 4) + 1);
+          execute(c, eo, r);
+          err = judge_model(c, r, false, true);
+          if (err.empty() && module_hash(mod) != h0) err = sfmt("the MODULE or one of its precomputed tables was modified by the call (%s buffers)", al ? "unaligned" : "64-byte aligned");
+        }
         if (!err.empty()) ctx.violation(c.id, err);
         int nsrc = 0;
         for (auto& b : c.bufs) if (b.role == R_IN && b.bytes) nsrc++;
@@ -53,10 +57,14 @@ int main(int argc, char** argv) {
       if (!ctx.want(c.id)) return;
       ctx.begin_case(c.id);
       uint64_t h0 = ki.table ? fnv(ki.table, ki.table_bytes) : 0;
-      ExecOpts eo; eo.prefill = 1;
-      execute(c, eo, r);
-      std::string err = judge_model(c, r, false, true);
-      if (err.empty() && ki.table && fnv(ki.table, ki.table_bytes) != h0) err = "the precomputed table was modified by the call";
+      std::string err;
+      for (int al = 0; al < 2 && err.empty(); ++al) {
+        ExecOpts eo; eo.prefill = 1;
+        if (al) for (int i = 0; i < 12; ++i) eo.off[i] = 8 * (2 * (i % 4) + 1);
+        execute(c, eo, r);
+        err = judge_model(c, r, false, true);
+        if (err.empty() && ki.table && fnv(ki.table, ki.table_bytes) != h0) err = "the precomputed table was modified by the call";
+      }
       if (!err.empty()) ctx.violation(c.id, err);
       int nsrc = 0;
       for (auto& b : c.bufs) if (b.role == R_IN && b.bytes) nsrc++;
